@@ -1,6 +1,7 @@
 package main
 
 import (
+	"go/types"
 	"fmt"
 	"go/constant"
 	"go/token"
@@ -829,7 +830,32 @@ func ruleC20Cell(c *Ctx) {
 				}
 			}
 		}
-		if nF == 0 || nA == 0 {
+		if nF == 0 && nA == 0 {
+			// the plain look-up `return vars[text(args[0])], nil`: a key that was never set reads as the zero value of the
+			// map's element type, the nil interface — NULL (refactoring round 11, funcs11-r8)
+			nPlain := 0
+			for _, p := range tb.SuccessPaths() {
+				r := p.Ret[0].T
+				if r != nil && r.Op == "lookup" && len(r.Args) == 2 && r.Args[0].Op == "field" && r.Args[0].Name == "vars" {
+					if _, isIface := r.Typ.Underlying().(*types.Interface); r.Typ != nil && isIface {
+						nPlain++
+						if !keyConv(r.Args[1], "0") {
+							why = append(why, "getvar's key is not the decimal text (TextOf) of args[0]")
+						}
+						for _, e := range p.Effects {
+							if e.Kind == "mapupdate" {
+								why = append(why, "getvar writes to a map")
+							}
+						}
+						continue
+					}
+				}
+				why = append(why, "getvar returns "+avString(p.Ret[0])+", not the stored value")
+			}
+			if nPlain == 0 {
+				why = append(why, fmt.Sprintf("found paths=%d absent paths=%d", nF, nA))
+			}
+		} else if nF == 0 || nA == 0 {
 			why = append(why, fmt.Sprintf("found paths=%d absent paths=%d", nF, nA))
 		}
 		c.Check(len(why) == 0, "c20.cell", "registered:getvar="+c.P.funcKey(get), c.P.Pos(get.Pos()), "vars[text(args[0])] or NULL", strings.Join(uniq(why), "; "))
